@@ -33,7 +33,7 @@ from mingus.containers.instrument import MidiInstrument
 from mingus.containers.note import Note
 from mingus.containers.note_container import NoteContainer
 from mingus.containers.track import Track
-from mingus.core.keys import Key
+from mingus.core.keys import Key, get_key
 
 
 def MIDI_to_Composition(file):
@@ -159,16 +159,10 @@ class MidiFile(object):
                         # Key Signature
                         d = event["data"]
                         sharps = self.bytes_to_int(d[0])
-                        minor = self.bytes_to_int(d[0])
-                        if minor:
-                            key = "A"
-                        else:
-                            key = "C"
-                        for i in range(abs(sharps)):
-                            if sharps < 0:
-                                key = intervals.major_fourth(key)
-                            else:
-                                key = intervals.major_fifth(key)
+                        if sharps > 127:
+                            sharps -= 256
+                        minor = self.bytes_to_int(d[1])
+                        key = get_key(sharps)[1 if minor else 0]
                         b.key = Key(key)
                     else:
                         print("Unsupported META event", event["meta_event"])
